@@ -380,7 +380,7 @@ class NewSymbolVariant(Variant):
     it is not the (quoted) name of a free symbol of the formula, and the counter moves past n -
     so it differs from every name handed out before (indices below the old counter) and after.
     The search loop is covered by an inductive invariant: all iterations."""
-    prop_ids = ("C07",)
+    prop_ids = ("C07", "C09")        # (a let name that clashes with a symbol of the formula breaks the print / parse round trip)
     qualname = DAG + "._new_symbol"
     name = "dag:_new_symbol"
 
